@@ -228,8 +228,8 @@ PROPS = {'C18': {'title': 'Inflights window is a bounded FIFO under resizing',
          'body': ['confchange'],
          'cone': ['quorum', 'tracker'],
          'modes': ['P'],
-         'claim': 'PROOF for Changer::{simple, enter_joint, leave_joint} + ProgressTracker::apply_conf and the quorum-overlap lemmas; the ConfState round trip '
-                  '(confchange::restore, Configuration::to_conf_state) is NOT decided here',
+         'claim': 'PROOF for Changer::{simple, enter_joint, leave_joint}, ProgressTracker::apply_conf, confchange::restore (partial correctness: IF it succeeds it '
+                  'reproduces the configuration the ConfState describes) and the quorum-overlap lemmas; Configuration::to_conf_state is not under contract',
          'decided': ['IncrChangeMap::contains: the LATEST logged change of an id decides (icm_dom); check_invariants returns Ok IFF cfg_checked (the stated '
                      'disjointness / staging / tracking conditions), for every configuration and change log',
                      'Changer::apply is the left fold of the reference step function sp_apply_one over the change list and rejects exactly the results without '
@@ -241,9 +241,13 @@ PROPS = {'C18': {'title': 'Inflights window is a bounded FIFO under resizing',
                      'tracker (the methods take &self / return new values: checked by the borrow discipline)',
                      'ProgressTracker::apply_conf installs the configuration and the progress-map domain becomes icm_dom(changes); untouched entries keep '
                      'their Progress',
+                     'confchange::to_conf_change_single produces exactly the two stated change lists; confchange::restore from an empty tracker and a consistent ConfState '
+                     '(sets disjoint / staged inside outgoing, no id 0): if it returns Ok the tracker configuration equals the five sets of the ConfState (auto_leave '
+                     'included) and progress is tracked for exactly its members (replay lemmas over the reference step function, four phases)',
                      'lemma_c12_{simple,enter_joint,leave_joint}_overlap: a deciding set (strict majority of incoming, and of outgoing when joint) before the '
                      'change shares a voter with any deciding set after it, for the result shapes the three contracts establish'],
-         'undecided': ['Restoring the ConfState of a reachable configuration reproduces it (confchange::restore / to_conf_state: not under contract)',
+         'undecided': ['that restore never FAILS on the ConfState of a reachable configuration, and Configuration::to_conf_state itself (HashSet -> Vec collect): only the bounded '
+                       'monitor mon_c12 exercises the full round trip through Raft::new',
                        'that callers (Raft::apply_conf_change) only pass configurations satisfying cfg_inv (needs the invariant over the whole run)'],
          'assumptions': ['std iterator adapters rfind / extend / drain / symmetric_difference().count() / Union::iter as specified helpers (R9)',
                          'derive(Clone) of tracker::Configuration copies the sets (R9)', 'protobuf ConfChangeSingle / ConfChangeType stubs']},
